@@ -53,7 +53,8 @@ pub fn tokio_to_unixaddr(src: &tokio::net::unix::SocketAddr) -> UnixAddr {
     if let Some(path) = src.as_pathname() {
         UnixAddr::new(path).unwrap()
     } else {
-        unimplemented!()
+        /* Clients rarely bind their end, so the usual peer address is the unnamed one. */
+        UnixAddr::new_unnamed()
     }
 }
 
